@@ -763,6 +763,7 @@ type result struct {
 	Alloc      uint64
 	HasFd      bool
 	Boundary   int
+	IovOverlap bool   // read-type call whose iovec output buffer overlaps its own iovec array
 	Harness    string // the harness could not run the case (not a verdict)
 	DroppedRes bool   // success although a fixed-size result pointer is outside memory (informational)
 	Msg        string
@@ -911,6 +912,13 @@ func (w *world) runCallInner(c *Case) (r result) {
 	}
 	from, to, changed := uncovered(snap, after, regions)
 	r.MemChanged = changed
+	r.IovOverlap = iovOutputOverlapsArray(fn, c.Args, snap)
+	if from >= 0 && r.IovOverlap && liveClass[idIovOverlap] {
+		// known class: the host reads the iovec array while the call's own output rewrites it, so
+		// the designated regions are not well defined; not judged by this oracle (counted)
+		evid.Label("excluded-output-iovec-overlaps-iovec-array", 1)
+		from = -1
+	}
 	if from >= 0 {
 		rs, _ := json.Marshal(regions)
 		if len(rs) > 600 {
@@ -1101,7 +1109,11 @@ func TestReplay(t *testing.T) {
 	}
 	t.Logf("errno=%d outcome=%s alloc=%d memchanged=%v", r.Errno, r.Out, r.Alloc, r.MemChanged)
 	if r.Msg != "" {
-		if id := classOfCase(&c, r.Msg); id != "" {
+		id := classOfCase(&c, r.Msg)
+		if id == "" && r.IovOverlap && strings.Contains(r.Msg, "outside its output regions") {
+			id = idIovOverlap
+		}
+		if id != "" {
 			if evid.Finding(id, "replay", c, "%s", r.Msg) {
 				t.Fatal(r.Msg)
 			}
